@@ -69,6 +69,14 @@ def run(ctx):
             # the same site after a rename of locals: matched by its name-free signature, at most `count` (default 1)
             # undischarged obligations per listed assumption - a second site with the same shape is still reported
             a2 = by_sig.get(getattr(o, "sig", None))
+            if a2 is None and getattr(o, "sig", None):
+                # assumptions scoped to a module: the function part of the signature is compared by its module
+                ps = o.sig.split("|")
+                for cand in assume.values():
+                    if cand.get("scope") == "module" and cand.get("sig"):
+                        cs = cand["sig"].split("|")
+                        if len(cs) == len(ps) and cs[0] == ps[0] and cs[2:] == ps[2:] and cs[1].split("::")[:3] == ps[1].split("::")[:3]:
+                            a2 = cand
             if a2 is not None and sig_used.get(a2["key"], 0) < a2.get("count", 1) and a2["key"] not in obs:
                 sig_used[a2["key"]] = sig_used.get(a2["key"], 0) + 1
                 a = a2
